@@ -40,7 +40,8 @@ def cases(tier):
     n = 2 if tier == "quick" else 3
     out = [{"name": f"history/{n}calls", "kind": "history", "n": n}, {"name": "selection", "kind": "selection"},
            {"name": "refusal", "kind": "refusal"}, {"name": "element-masses", "kind": "masses"},
-           {"name": "real-typing-history", "kind": "realhist"}, {"name": "molgen-typing-sequences", "kind": "molgenhist"}, {"name": "file-sequences", "kind": "filehist"}]
+           {"name": "real-typing-history", "kind": "realhist"}, {"name": "molgen-typing-sequences", "kind": "molgenhist"}, {"name": "file-sequences", "kind": "filehist"},
+           {"name": "molgen-spelling-pairs", "kind": "spellings"}]
     return out
 
 
@@ -202,6 +203,19 @@ def run_case(case, g, tier, res):
             return len(problems)
 
         explore_case(res, h, tier, on_path=on_path)
+    elif kind == "spellings":
+        def h(c):
+            i = c.fresh_int("pair", 0, len(SPELLING_PAIRS) - 1).__index__()
+            problems = molgen_spelling_pair(g, ff, SPELLING_PAIRS[i])
+
+            def build(mv, c):
+                return (f"C20:molgen-spellings:{problems[0][0] if problems else ''}", f"typing two atom orders of one molecule through MolGen.forcefield_types: {[p_[1] for p_ in problems[:3]]}",
+                        {"kind": "spellings", "pair": list(SPELLING_PAIRS[i])})
+
+            c.prove(len(problems) == 0, "typing generated molecules: numbering-free, element masses (hetero-aromatic and fused rings)", build)
+            return len(problems)
+
+        explore_case(res, h, tier, on_path=on_path)
     elif kind == "filehist":
         def h(c):
             k = c.fresh_int("history", 0, len(FILE_HISTORIES) - 1).__index__()
@@ -350,6 +364,50 @@ def molgen_typing_sequence(g, ff, first, between):
     s2 = type_once(first, "second typing of")
     if s1 is not None and s2 is not None and s1 != s2:
         problems.append(("history", f"typing {first} again after {between} gives other parameters: {[x for x, y in zip(s1, s2) if x != y][:2]}"))
+    return problems
+
+
+# two atom orders of one molecule: fused and hetero-aromatic rings (ring perception and rule priority decide their types)
+SPELLING_PAIRS = [("c1cccc2nc(ccc12)C", "c12ccccc2ccc(n1)C"), ("Cc1cc2ccccc2o1", "o1c(C)cc2ccccc12"), ("Cc1nccs1", "s1ccnc1C"), ("c1ccsn1", "n1sccc1"),
+                  ("Cc1cscn1", "n1cscc1C"), ("CC(=O)Oc1ccccc1", "c1ccccc1OC(C)=O"), ("c12c(cccc2)cc(C)o1", "o1c2ccccc2cc1C"),
+                  ("CC(c1cc2c(cccc2)nc1C)C", "CC(c1cc2ccccc2nc1C)C")]
+
+
+def molgen_spelling_pair(g, ff, pair):
+    """both atom orders typed through MolGen.forcefield_types (fresh assigner state): every atom has its element's mass and atoms
+    of equal canonical rank get the same type in both"""
+    from rdkit import Chem
+
+    pt = Chem.GetPeriodicTable()
+    problems = []
+    snaps = []
+    for smi in pair:
+        ff._global_nonbonded_itp_file = ff._global_smarts_rule_file = ff._global_assignment_class = None
+        mg = g.Molecule(smi).generate()
+        try:
+            params, mol = mg.forcefield_types
+        except ff.FfAssignmentError:
+            snaps.append("assignment error")
+            continue
+        except Exception as e:
+            problems.append(("other-exception", f"{smi}: raised {type(e).__name__}"))
+            snaps.append(None)
+            continue
+        if len(params) != mol.GetNumAtoms():
+            problems.append(("incomplete", f"{smi}: {len(params)} of {mol.GetNumAtoms()} atoms typed"))
+        ranks = list(Chem.CanonicalRankAtoms(mol, breakTies=False))
+        snap = []
+        for a in mol.GetAtoms():
+            p_ = params.get(a.GetIdx())
+            if p_ is None:
+                continue
+            if a.GetIsotope() == 0 and abs(p_.mass - pt.GetAtomicWeight(a.GetAtomicNum())) > 0.05:
+                problems.append(("element-mass", f"{smi}: atom {a.GetIdx()} {a.GetSymbol()} has mass {p_.mass} ({p_.bond_type_name})"))
+            snap.append((ranks[a.GetIdx()], a.GetSymbol(), p_.bond_type_name, float(p_.mass), float(p_.charge), float(p_.sigma), float(p_.epsilon)))
+        snaps.append(sorted(snap))
+    if len(snaps) == 2 and None not in snaps and snaps[0] != snaps[1]:
+        d = [x for x in snaps[0] if x not in snaps[1]][:2] if isinstance(snaps[0], list) and isinstance(snaps[1], list) else snaps
+        problems.append(("numbering", f"{pair[0]} and {pair[1]} are one molecule but are typed differently: {d}"))
     return problems
 
 
@@ -537,6 +595,11 @@ def replay(rp, gb):
         import gbigsmiles.forcefield_helper as ffp
 
         problems = molgen_typing_sequence(gb, ffp, rp["first"], rp["between"])
+        return bool(problems), f"{[p_[1] for p_ in problems[:4]]}"
+    if rp["kind"] == "spellings":
+        import gbigsmiles.forcefield_helper as ffp
+
+        problems = molgen_spelling_pair(gb, ffp, tuple(rp["pair"]))
         return bool(problems), f"{[p_[1] for p_ in problems[:4]]}"
     if rp["kind"] == "realhist":
         problems = real_typing_history(ff, tuple(rp["pair"]), rp["first"])
